@@ -81,7 +81,9 @@ Step ==
              \* supports signed announcements - in the signed-peers table, wherever there is room for it
              absent == {<<p, "main">> : p \in {x \in SeqSet(e.answered) : x \notin now.main /\ Cardinality(now.main) < e.bucket_capacity}}
                        \cup {<<p, "signed">> : p \in {x \in SeqSet(e.answered) \cap SeqSet(e.capable) : x \notin now.signed /\ Cardinality(now.signed) < e.bucket_capacity}}
+             \* a bootstrap node has been reachable for two minutes and the main table is empty
              failed == (IF dropped = {} /\ absent = {} THEN {} ELSE {"C14_KeepsResponsive"}) \cup (IF e.panicked THEN {"C14_NoPanic"} ELSE {})
+                       \cup (IF e.boot_alive_ms > 2 * Min /\ now.main = {} THEN {"C14_NeverStaysEmpty"} ELSE {})
          IN /\ IF failed # {} THEN PrintT(<<"VIOL", ToJson([line |-> l, b |-> beh, failed |-> failed, t_min |-> e.t \div Min, missing |-> absent, dropped |-> dropped])>>) ELSE TRUE
             /\ prevT' = (0 :> now)
             /\ UNCHANGED <<lastAns, down, started, lastRefresh, beh, first, exempt, nserv>>
